@@ -134,3 +134,6 @@ proof fn lemma_last_non_ws_colon(cs: Seq<char>)
         assert(cs.last() == ':');
     }
 }
+
+/// the null spellings: empty, `~`, `null` in any letter case
+spec fn sp_null_text(b: Seq<u8>) -> bool { b.len() == 0 || b =~= seq![0x7eu8] || pl_eq_ci(b, seq![0x6eu8, 0x75, 0x6c, 0x6c]) }
